@@ -17,8 +17,13 @@ package stringclassifier
 //@
 //@ spec okNormalizers(c *Classifier) bool = c != nil && (forall i int :: 0 <= i && i < len(c.normalizers) ==> c.normalizers[i] != nil)
 //@
+//@ // normOf(c, s): the normalised form of s (uninterpreted: the normalisers are
+//@ // user supplied, assumed pure, and c.normalizers is never reassigned after New)
+//@ spec normOf(c *Classifier, s string) string
+//@
 //@ func (*Classifier).normalize
 //@   requires okNormalizers(c)
+//@   function normOf
 //@   modifies nothing
 //@   props C13 C14
 //@
@@ -54,6 +59,9 @@ package stringclassifier
 // wfC: the classifier's own invariant (what New establishes).
 //@ spec wfC(c *Classifier) bool = okNormalizers(c) && c.values != nil
 //@
+//@ // readyC: what callers of the public matching methods must provide
+//@ spec readyC(c *Classifier) bool = wfC(c) && held(&c.muValues) == 0
+//@
 //@ func New
 //@   requires forall i int :: 0 <= i && i < len(funcs) ==> funcs[i] != nil
 //@   ensures fresh(result) && wfC(result)
@@ -73,6 +81,7 @@ package stringclassifier
 //@
 //@ func (*Classifier).AddPrecomputedValue
 //@   requires wfC(c) && held(&c.muValues) == 0 && set != nil && len(set.Checksums) == len(set.ChecksumRanges) && set.nodes == nil && okRanges(set.ChecksumRanges, len(set.Tokens))
+//@   requires okHash(set.Hashes, len(set.Tokens)) && nonNilToks(set.Tokens)
 //@   ensures wfC(c) && held(&c.muValues) == 0
 //@   access Classifier.values[] read requires held(&c.muValues) >= 1
 //@   access Classifier.values[] write requires held(&c.muValues) == 2
@@ -87,8 +96,13 @@ package stringclassifier
 //
 //@ spec okMatchP(p *Match, norm string) bool = p != nil && 0.0 < p.Confidence && p.Confidence <= 1.0 && 0 <= p.Offset && 0 <= p.Extent && p.Offset + p.Extent <= len(norm)
 //@ spec okMatch(x any, norm string) bool = typeis(x, "*Match") && okMatchP(unbox(x, "*Match"), norm)
-//@ spec queueInv(q *pq.Queue, norm string) bool = q != nil && wfHeap(q.heap) && q.heap.setIndex == nil && (forall y any :: member(q.heap, y) ==> okMatch(y, norm))
-//@ spec matcherInv(m *matcher) bool = queueInv(m.queue, m.normUnknown)
+//@ spec queueInv(q *pq.Queue, norm string) bool = q != nil && wfHeap(q.heap) && q.heap.setIndex == nil && (forall k int :: 0 <= k && k < len(q.heap.a) ==> okMatch(q.heap.a[k], norm))
+//@ // allNewer(q, b): every match in the queue was allocated after the object
+//@ // with reference b (so matches are never shared between calls)
+//@ spec allNewer(q *pq.Queue, b int) bool = forall k int :: 0 <= k && k < len(q.heap.a) ==> ref(unbox(q.heap.a[k], "*Match")) > b
+//@ // arrNewer(q, b): the queue's backing array (if any) was allocated after b
+//@ spec arrNewer(q *pq.Queue, b int) bool = ref(q.heap.a) == 0 || ref(q.heap.a) > b
+//@ spec matcherInv(m *matcher) bool = queueInv(m.queue, m.normUnknown) && allNewer(m.queue, ref(m)) && arrNewer(m.queue, ref(m))
 //@ spec wfMatcher(m *matcher) bool = m != nil && m.unknown != nil && wfSS(m.unknown) && okToks(m.unknown.Tokens, m.normUnknown)
 //@ lockinv matcher.mu = matcherInv
 //@
@@ -97,7 +111,7 @@ package stringclassifier
 //@ lockinv Classifier.muValues = valuesInv
 //@
 //@ func newMatcher
-//@   ensures fresh(result) && wfMatcher(result) && matcherInv(result) && result.normUnknown == unknown
+//@   ensures fresh(result) && fresh(result.queue) && wfMatcher(result) && matcherInv(result) && result.normUnknown == unknown
 //@   modifies nothing
 //@   props C13 C17
 //@
@@ -107,16 +121,137 @@ package stringclassifier
 //@   props C13
 //@
 //@ func (*matcher).findMatches$1
-//@   requires wfMatcher(m) && known != nil && okGroup(mr, len(m.unknown.Tokens)) && held(&m.mu) == 0
+//@   ghostparam base int
+//@   requires wfMatcher(m) && known != nil && okGroup(mr, len(m.unknown.Tokens)) && held(&m.mu) == 0 && base <= ref(m) && base <= ref(m.queue)
 //@   ensures held(&m.mu) == 0
+//@   modifies m.queue.heap.a, elemsSince(m.queue.heap.a, base)
 //@   callreq Push requires held(&m.mu) == 2
-//@   access matcher.queue read requires true
 //@   props C13 C14 C17
 //@
 //@ func (*matcher).findMatches
-//@   requires wfMatcher(m) && okKnown(known) && known.set != nil && held(&m.mu) == 0
+//@   ghostparam base int
+//@   requires wfMatcher(m) && okKnown(known) && known.set != nil && held(&m.mu) == 0 && base <= ref(m) && base <= ref(m.queue)
+//@   ensures held(&m.mu) == 0
+//@   callghost findMatches$1 base = base
+//@   // if the known value occurs in the unknown text, the unknown text has tokens
+//@   // (needs reasoning about string containment that the Str theory lacks)
+//@   assumes len(m.unknown.Tokens) > 0
+//@   modifies m.queue.heap.a, elemsSince(m.queue.heap.a, base)
 //@   loop 1 invariant wfMatcher(m) && okKnown(known) && known.set != nil && (mrs == nil || fresh(mrs)) && okGroups(mrs, len(m.unknown.Tokens))
 //@   loop 2 invariant 0 <= start && 0 <= end && wfMatcher(m) && okKnown(known) && known.set != nil && (mrs == nil || fresh(mrs)) && okGroups(mrs, len(m.unknown.Tokens))
-//@   loop 2 invariant 0 <= rangeindex + 1 && start <= rangeindex + 1 && len(a) == 2 && 0 <= a[0] && a[0] <= a[1] && a[1] <= len(m.normUnknown)
+//@   loop 2 invariant len(a) == 2 && ((rangeindex == -1 && start == 0 && end == 0) || (0 <= start && start <= end && end == rangeindex))
 //@   loop 3 invariant wfMatcher(m) && okKnown(known) && known.set != nil && okGroups(mrs, len(m.unknown.Tokens)) && held(&m.mu) == 0
 //@   props C13 C14 C17
+//
+//@ func (*Classifier).multipleMatch$1
+//@   ghostparam base int
+//@   requires wfMatcher(m) && c != nil && okKnown(known) && held(&c.muValues) == 0 && held(&m.mu) == 0 && base <= ref(m) && base <= ref(m.queue)
+//@   ensures held(&c.muValues) == 0 && held(&m.mu) == 0
+//@   callghost findMatches base = base
+//@   modifies known.set, m.queue.heap.a, elemsSince(m.queue.heap.a, base)
+//@   guarantee okKnown(known)
+//@   access knownValue.set read requires held(&c.muValues) >= 1
+//@   access knownValue.set write requires held(&c.muValues) == 2
+//@   access Classifier.values[] read requires held(&c.muValues) >= 1
+//@   access Classifier.values[] write requires held(&c.muValues) == 2
+//@   props C14 C13
+//@
+//@ func (*Classifier).multipleMatch
+//@   requires wfC(c) && held(&c.muValues) == 0
+//@   ensures held(&c.muValues) == 0
+//@   ensures result != nil ==> fresh(result) && queueInv(result, normOf(c, unknown)) && allNewer(result, old(nextref()) - 1) && arrNewer(result, old(nextref()) - 1)
+//@   modifies allof(knownValue.set)
+//@   callghost multipleMatch$1 base = old(nextref())
+//@   access Classifier.values[] read requires held(&c.muValues) >= 1
+//@   access Classifier.values[] write requires held(&c.muValues) == 2
+//@   afterwait assume matcherInv(m)
+//@   loop 1 invariant wfC(c) && held(&c.muValues) == 1 && valuesInv(c) && wfMatcher(m) && fresh(m) && fresh(m.queue) && m.normUnknown == normOf(c, unknown) && (kvals == nil || fresh(kvals)) && (forall i int :: 0 <= i && i < len(kvals) ==> okKnown(kvals[i]))
+//@   loop 2 invariant wfC(c) && held(&c.muValues) == 0 && wfMatcher(m) && fresh(m) && fresh(m.queue) && m.normUnknown == normOf(c, unknown) && (forall i int :: 0 <= i && i < len(kvals) ==> okKnown(kvals[i]))
+//@   props C14 C13
+//
+// ---------------------------------------------------------------- public API
+//@ func (Matches).Len
+//@   ensures result == len(m)
+//@   modifies nothing
+//@   props C13
+//@ func (Matches).Swap
+//@   requires 0 <= i && i < len(m) && 0 <= j && j < len(m)
+//@   ensures m[i] == old(m[j]) && m[j] == old(m[i])
+//@   ensures forall k int :: 0 <= k && k < len(m) && k != i && k != j ==> m[k] == old(m[k])
+//@   modifies elems(m)
+//@   props C13
+//@ func (Matches).Less
+//@   requires 0 <= i && i < len(m) && 0 <= j && j < len(m) && m[i] != nil && m[j] != nil
+//@   modifies nothing
+//@   props C13
+//@
+//@ func (Matches).uniquify
+//@   ghostparam norm string
+//@   ghostparam base int
+//@   requires forall i int :: 0 <= i && i < len(m) ==> okMatchP(m[i], norm) && ref(m[i]) > base
+//@   ensures forall i int :: 0 <= i && i < len(result) ==> okMatchP(result[i], norm) && ref(result[i]) > base
+//@   modifies nothing
+//@   loop 1 invariant (matches == nil || fresh(matches)) && (matched == nil || fresh(matched)) && (forall i int :: 0 <= i && i < len(matches) ==> okMatchP(matches[i], norm) && ref(matches[i]) > base)
+//@   loop 2 invariant (matches == nil || fresh(matches)) && (matched == nil || fresh(matched)) && (forall i int :: 0 <= i && i < len(matches) ==> okMatchP(matches[i], norm) && ref(matches[i]) > base)
+//@   props C13
+//@
+//@ func extern sort.Sort
+//@   trusted
+//@   ensures typeis(data, "Matches") ==> (forall k int :: 0 <= k && k < len(unbox(data, "Matches")) ==> (exists j int :: 0 <= j && j < len(unbox(data, "Matches")) && unbox(data, "Matches")[k] == old(unbox(data, "Matches")[j])))
+//@   modifies elems(unbox(data, "Matches")) when typeis(data, "Matches")
+//@
+// nearestMatch: the queue pq and the mutex mu are local variables shared with
+// the classifyString goroutines. lockNorm(&mu) is the ghost argument of the
+// lock: the normalised unknown text its invariant speaks about; it is fixed
+// once by the creating activation (ghostinit) and demanded by every goroutine.
+//@ spec lockNorm(mu *sync.Mutex) string
+//@ lockinv local nearestMatch.mu = queueInv(pq, lockNorm(&mu)) && allNewer(pq, ref(&mu)) && arrNewer(pq, ref(&mu))
+//@
+//@ func (*Classifier).nearestMatch$1
+//@   requires typeis(x, "*Match") && unbox(x, "*Match") != nil && typeis(y, "*Match") && unbox(y, "*Match") != nil
+//@   modifies nothing
+//@   props C13
+//@
+//@ func (*Classifier).nearestMatch$2
+//@   ghostparam base int
+//@   requires pq != nil && held(&mu) == 0 && lockNorm(&mu) == unknown && base <= ref(&mu) && base <= ref(pq)
+//@   ensures held(&mu) == 0
+//@   modifies pq.heap.a, elemsSince(pq.heap.a, base)
+//@   callreq Push requires held(&mu) == 2
+//@   props C13 C14
+//@
+//@ func (*Classifier).nearestMatch
+//@   requires wfC(c) && held(&c.muValues) == 0
+//@   ensures held(&c.muValues) == 0
+//@   ensures fresh(result) && queueInv(result, normOf(c, unknown)) && allNewer(result, old(nextref()) - 1) && arrNewer(result, old(nextref()) - 1)
+//@   ghostinit lockNorm mu = normOf(c, unknown) after normalize
+//@   callghost nearestMatch$2 base = old(nextref())
+//@   modifies nothing
+//@   access Classifier.values[] read requires held(&c.muValues) >= 1
+//@   access Classifier.values[] write requires held(&c.muValues) == 2
+//@   afterwait assume queueInv(pq, lockNorm(&mu)) && allNewer(pq, ref(&mu)) && arrNewer(pq, ref(&mu))
+//@   loop 1 invariant wfC(c) && held(&c.muValues) == 1 && valuesInv(c) && held(&mu) == 0 && queueInv(pq, lockNorm(&mu)) && allNewer(pq, ref(&mu)) && arrNewer(pq, ref(&mu)) && (likely == nil || fresh(likely)) && (forall i int :: 0 <= i && i < len(likely) ==> likely[i].value != nil)
+//@   loop 2 invariant wfC(c) && held(&c.muValues) == 0 && held(&mu) == 0 && pq != nil && (forall i int :: 0 <= i && i < len(likely) ==> likely[i].value != nil)
+//@   props C13 C14
+//@
+//@ func (*Classifier).NearestMatch
+//@   requires wfC(c) && held(&c.muValues) == 0
+//@   ensures fresh(result) && (result.Confidence == 0.0 && result.Offset == 0 && result.Extent == 0 || okMatchP(result, normOf(c, s)))
+//@   modifies nothing
+//@   props C13 C14
+//@
+//@ func (Matches).Names
+//@   requires forall i int :: 0 <= i && i < len(m) ==> m[i] != nil
+//@   ensures len(result) == len(m)
+//@   modifies nothing
+//@   loop 1 invariant (names == nil || fresh(names)) && len(names) == rangeindex + 1
+//@   props C13
+//@
+//@ func (*Classifier).MultipleMatch
+//@   requires wfC(c) && held(&c.muValues) == 0
+//@   ensures forall i int :: 0 <= i && i < len(matches) ==> okMatchP(matches[i], normOf(c, s)) && fresh(matches[i])
+//@   callghost uniquify norm = normOf(c, s)
+//@   callghost uniquify base = old(nextref()) - 1
+//@   modifies allof(knownValue.set)
+//@   loop 1 invariant fresh(pq) && arrNewer(pq, old(nextref()) - 1) && queueInv(pq, normOf(c, s)) && allNewer(pq, old(nextref()) - 1) && (matches == nil || fresh(matches)) && (forall i int :: 0 <= i && i < len(matches) ==> okMatchP(matches[i], normOf(c, s)) && fresh(matches[i]))
+//@   props C13 C14
